@@ -238,6 +238,45 @@ struct NodeInner {
     evm_network: EvmNetwork,
 }
 
+/// Conformance-harness constructor: a `Node` around a harness-driven `Network` (nothing is run).
+#[cfg(maidsafe_safe_network_verif)]
+impl Node {
+    pub(crate) fn verif_new(
+        network: Network,
+        evm_network: EvmNetwork,
+        reward_address: RewardsAddress,
+    ) -> Self {
+        Node {
+            inner: Arc::new(NodeInner {
+                events_channel: NodeEventsChannel::default(),
+                initial_peers: vec![],
+                network,
+                #[cfg(feature = "open-metrics")]
+                metrics_recorder: None,
+                reward_address,
+                evm_network,
+            }),
+        }
+    }
+
+    pub(crate) async fn verif_handle_query(
+        network: &Network,
+        query: Query,
+        payment_address: RewardsAddress,
+    ) -> Response {
+        Self::handle_query(network, query, payment_address).await
+    }
+
+    pub(crate) fn verif_calculate_get_closest_peers(
+        peer_addrs: Vec<(PeerId, Vec<Multiaddr>)>,
+        target: NetworkAddress,
+        num_of_peers: Option<usize>,
+        range: Option<[u8; 32]>,
+    ) -> Vec<(NetworkAddress, Vec<Multiaddr>)> {
+        Self::calculate_get_closest_peers(peer_addrs, target, num_of_peers, range)
+    }
+}
+
 impl Node {
     /// Returns the NodeEventsChannel
     pub(crate) fn events_channel(&self) -> &NodeEventsChannel {
